@@ -15,6 +15,7 @@ import OQuPyVerif.Lemmas.PathDiag
 import OQuPyVerif.Lemmas.EtaCells
 import OQuPyVerif.Props.C04
 import OQuPyVerif.Generated.InfluenceArgs
+import OQuPyVerif.Lemmas.FloatGrid
 
 namespace OQuPyVerif.Props.C01
 open Finset BigOperators OQuPyVerif.PathSum OQuPyVerif.Tempo OQuPyVerif.EtaCells
@@ -230,6 +231,44 @@ theorem influence_args (dt τ : Rat) (Kc dk : Int) :
   · unfold infl_neg_time2; simp [Rat.mkRat_eq_div]
 
 end Generated
+
+
+/-! ### `tcut` has its documented meaning -/
+section Tcut
+open OQuPyVerif.Generated.InfluenceArgs OQuPyVerif.FloatModel OQuPyVerif.FloatGrid
+
+theorem ceilInt_intCast (n : Int) : ceilInt (n : Rat) = n := by
+  show ⌈(n : Rat)⌉ = n
+  exact Int.ceil_intCast n
+
+/-- The memory cut-off given as a time: `dkmax` is the number of steps nearest to `tcut/dt`
+    (regenerated expression, binary64 model): whenever the exact quotient is within 1/4 of the
+    integer `k` — in particular for every `tcut` written as the literal of `k·dt` — the result is
+    `k`, not `k+1`. -/
+theorem tcut_general (tcut dt : Rat) (k : Int) (hq : |tcut / dt - k| ≤ 1/4)
+    (hbig : |tcut / dt| ≤ 2 ^ 40) : tcut_to_dkmax tcut dt = k := by
+  unfold tcut_to_dkmax fdiv
+  have herr := rnd_err (tcut / dt)
+  have hclose : |rnd (tcut / dt) - k| < 1/2 := by
+    have h1 : |rnd (tcut / dt) - k| ≤ |rnd (tcut / dt) - tcut / dt| + |tcut / dt - k| := by
+      have := abs_add_le (rnd (tcut / dt) - tcut / dt) (tcut / dt - k)
+      simpa using this
+    have h2 : (1 / 2 ^ 53 : Rat) * |tcut / dt| ≤ 1 / 2 ^ 13 := by
+      have : (1 / 2 ^ 53 : Rat) * |tcut / dt| ≤ (1 / 2 ^ 53) * 2 ^ 40 :=
+        mul_le_mul_of_nonneg_left hbig (by positivity)
+      have e : (1 / 2 ^ 53 : Rat) * 2 ^ 40 = 1 / 2 ^ 13 := by norm_num
+      linarith
+    have : (1 / 2 ^ 13 : Rat) + 1/4 < 1/2 := by norm_num
+    linarith
+  rw [roundHalfEven_eq_of_close _ k hclose, ceilInt_intCast, truncInt_intCast]
+
+/-- the historical trap `0.28/0.04 = 7.000000000000001` gives 7 memory steps -/
+example : tcut_to_dkmax (lit 28 2) (lit 4 2) = 7 := by decide +kernel
+
+/-- `dkmax` given as a number of steps corresponds to `tcut = dkmax·dt` -/
+theorem dkmax_tcut (dkmax : Int) (dt : Rat) : dkmax_to_tcut dkmax dt = fmul (ofInt dkmax) dt := rfl
+
+end Tcut
 
 /-- non-vacuity of `decoherence_factor`'s hypotheses: `E = fun _ => 1` over ℚ -/
 example : (fun _ : ℚ => (1:ℚ)) 0 = 1 ∧ ∀ x y : ℚ, (fun _ : ℚ => (1:ℚ)) (x + y) = 1 * 1 := by simp
